@@ -1032,7 +1032,7 @@ class SamplingMethod(DirectMethod):
             for k in [-1]+list(range(self.N)):
                 target = self.eval_at_control(stage, var, k)
                 value_k = value
-                if target.numel()*(self.N)==value.numel() or target.numel()*(self.N+1)==value.numel():
+                if value.shape!=target.shape and (target.numel()*(self.N)==value.numel() or target.numel()*(self.N+1)==value.numel()):
                     value_k = value[:,k]
                 try:
                     #print(target,value_k)
@@ -1065,7 +1065,7 @@ class SamplingMethod(DirectMethod):
                 z0 = self.Z0[k]
                 if z0 is None: break
                 target = z0[algs[var]]
-                if target.numel()*(self.N)==value.numel() or target.numel()*(self.N+1)==value.numel():
+                if value.shape!=target.shape and (target.numel()*(self.N)==value.numel() or target.numel()*(self.N+1)==value.numel()):
                     value_k = value[:,k]
                 opti.set_value(target, value_k)
 
